@@ -128,6 +128,7 @@ Definition c_8192 : float := 8192.                         (* 1 << 13 *)
 Definition c_66_774757 : float := 0x1.0b1959e625636p+6.    (* 66.774757 *)
 Definition c_5_7 : float := 0x1.6cccccccccccdp+2.          (* 5.7 *)
 Definition c_5_6 : float := 0x1.6666666666666p+2.          (* 5.6 *)
+Definition c_0_794 : float := 0x1.968a43713bd1fp-1.        (* 0.7940236163830469 *)
 Definition c_1em100 : float := 0x1.bff2ee48e053p-333.      (* 1e-100 *)
 Definition c_500 : float := 500.
 Definition c_0_673 : float := 0x1.589374bc6a7f0p-1.        (* 0.673 *)
@@ -367,14 +368,15 @@ Definition evaluate_polynomial (coefs : list float) (start num : Z) (x : float) 
   | last :: r => horner r last x
   end.
 Definition icon_lgk_ok (lgk : Z) : bool := ((icon_MIN_LOG_K <=? lgk) && (lgk <=? icon_MAX_LOG_K))%Z.
-(* branches: 1 c<2, 2 exponential approximation (pow), 3 polynomial *)
-Definition icon_estimate (lgk c : Z) : approx :=
+(* branches: 1 c<2, 2 exponential approximation 0.794.. * k * pow(2, c/k) with [pw] = pow(2.0, c/k) read from the environment,
+   3 polynomial; the branch selection (c > 5.7k resp. 5.6k) is part of the model *)
+Definition icon_estimate (lgk c : Z) (pw : float) : approx :=
   if (c <? 2)%Z then Exact 1 (if (c =? 0)%Z then 0 else 1)
   else
     let dk := fofZ (2 ^ lgk) in
     let dc := fofZ c in
     let thr := if (lgk <? 14)%Z then c_5_7 else c_5_6 in
-    if PrimFloat.ltb (thr * dk) dc then Libm 2
+    if PrimFloat.ltb (thr * dk) dc then Exact 2 (c_0_794 * dk * pw)
     else
       let factor := evaluate_polynomial icon_coefficients (icon_ncoef * (lgk - icon_MIN_LOG_K)) icon_ncoef (dc / (c_two * dk)) in
       let ratio := dc / dk in
@@ -511,7 +513,7 @@ Definition step (s : unit) (o e : line) : unit * outline :=
   | [7; lgk; c] =>                          (* compute_icon_estimate; env = implementation's value *)
       if icon_lgk_ok lgk then
         match e with
-        | [v] => let a := icon_estimate lgk c in
+        | [v; pw] => let a := icon_estimate lgk c (bf pw) in
                  (s, ([mism 0 a v], branch_of a :: match a with Exact _ x => [fb x] | Libm _ => [] end))
         | _ => (s, ([-3], []))
         end
